@@ -69,7 +69,8 @@ fn simple_tx(input: OutPoint, value: u64, script: Vec<u8>) -> Transaction {
             previous_output: input,
             script_sig: ScriptBuf::new(),
             sequence: Sequence::MAX,
-            witness: Witness::new(),
+            // every real penalty spends a segwit output: with witness data the witness id differs from the transaction id
+            witness: Witness::from_slice(&[vec![0x30u8; 71], vec![0x02u8; 33]]),
         }],
         output: vec![TxOut {
             value: Amount::from_sat(value),
@@ -180,8 +181,29 @@ fn make_block(prev: Option<&BlockEntry>, txs: Vec<Transaction>, tag: u32) -> Blo
             script_pubkey: ScriptBuf::from_bytes(vec![0x51]),
         }],
     };
+    let with_witness = txs.iter().any(|t| t.input.iter().any(|i| !i.witness.is_empty()));
     let mut txdata = vec![coinbase];
     txdata.extend(txs);
+    if with_witness {
+        // BIP 141: the coinbase commits to the witness ids of the block's transactions
+        txdata[0].input[0].witness = Witness::from_slice(&[vec![0u8; 32]]);
+        let probe = Block {
+            header: Header {
+                version: BlockVersion::from_consensus(0x2000_0000),
+                prev_blockhash: BlockHash::all_zeros(),
+                merkle_root: TxMerkleNode::all_zeros(),
+                time: 0,
+                bits: CompactTarget::from_consensus(0x207f_ffff),
+                nonce: 0,
+            },
+            txdata: txdata.clone(),
+        };
+        let root = probe.witness_root().unwrap();
+        let commitment = Block::compute_witness_commitment(&root, &[0u8; 32]);
+        let mut script = vec![0x6a, 0x24, 0xaa, 0x21, 0xa9, 0xed];
+        script.extend_from_slice(commitment.as_byte_array());
+        txdata[0].output.push(TxOut { value: Amount::ZERO, script_pubkey: ScriptBuf::from_bytes(script) });
+    }
     let mut block = Block {
         header: Header {
             version: BlockVersion::from_consensus(0x2000_0000),
